@@ -11,6 +11,8 @@ import (
 	"path"
 	"strconv"
 	"strings"
+	"sync"
+	"sync/atomic"
 	"time"
 
 	pdclient "github.com/tikv/pd/client"
@@ -214,12 +216,55 @@ func (w *world) exec(op string) (string, int) {
 			return errStr(err), id
 		}
 		return fmt.Sprintf("ts %d %d", ts.Physical, ts.Logical), id
+	case f[0] == "cburst" && len(f) == 4: // member, goroutines, count: free-running concurrency, monitor only
+		n, cnt := int(atoi(f[2])), uint32(atoi(f[3]))
+		var ticks int64
+		var mu sync.Mutex
+		var res []string
+		var wg sync.WaitGroup
+		stop := make(chan struct{})
+		upd := make(chan struct{})
+		go func() { // the updater daemon with an advancing clock
+			defer close(upd)
+			for {
+				select {
+				case <-stop:
+					return
+				default:
+				}
+				atomic.AddInt64(&w.now, 700000)
+				if m.alloc.IsInitialize() && m.ls.Check() {
+					m.alloc.UpdateTSO()
+				}
+			}
+		}()
+		for g := 0; g < n; g++ {
+			wg.Add(1)
+			go func() {
+				defer wg.Done()
+				for k := 0; k < 25; k++ {
+					st := atomic.AddInt64(&ticks, 1)
+					ts, err := m.alloc.GenerateTSO(cnt)
+					fi := atomic.AddInt64(&ticks, 1)
+					if err != nil {
+						continue
+					}
+					mu.Lock()
+					res = append(res, fmt.Sprintf("%d:%d:%d:%d:%d", ts.Physical, ts.Logical-int64(cnt), ts.Logical, st, fi))
+					mu.Unlock()
+				}
+			}()
+		}
+		wg.Wait()
+		close(stop)
+		<-upd
+		return "grants " + strings.Join(res, " "), id
 	case f[0] == "resetmem" && len(f) == 2:
 		m.alloc.Reset()
 		return "ok", id
 	case (f[0] == "update" || f[0] == "sync") && len(f) == 4, f[0] == "setts" && len(f) == 5:
 		if f[0] != "setts" {
-			w.now = atoi(f[2])
+			atomic.StoreInt64(&w.now, atoi(f[2]))
 		}
 		m.gate.SetFault(fault(f[len(f)-1]))
 		if m.pending != nil {
@@ -242,7 +287,7 @@ func (w *world) exec(op string) (string, int) {
 		if m.pending != nil {
 			return "blocked", id // the generator never does this
 		}
-		w.now = atoi(f[2])
+		atomic.StoreInt64(&w.now, atoi(f[2]))
 		parked := m.gate.ArmPark()
 		done := make(chan string, 1)
 		go func() { done <- w.windowCall(m, f) }()
@@ -439,6 +484,11 @@ func gen(w *world, t *trace.W, r *rng.R, maxOps int) {
 	for m := range parked {
 		w.run(t, fmt.Sprintf("finish %d %s", m, faults[r.Intn(len(faults))]))
 	}
+	if r.Bool(1, 4) {
+		// free-running concurrent requests against a concurrently running updater (monitor only; last op)
+		w.run(t, fmt.Sprintf("sync %d %d none", leader, clock(leader)))
+		w.run(t, fmt.Sprintf("cburst %d %d %d", leader, r.Range(2, 8), []int{1, 1, 3, 50, 2000}[r.Intn(5)]))
+	}
 }
 
 func main() {
@@ -454,7 +504,7 @@ func main() {
 	ctx, cancel := context.WithCancel(context.Background())
 	defer cancel()
 	w := &world{e: e, ctx: ctx, mems: map[int]*mem{}}
-	tso.VerifClock = func() time.Time { return time.Unix(0, w.now) }
+	tso.VerifClock = func() time.Time { return time.Unix(0, atomic.LoadInt64(&w.now)) }
 	tso.VerifSleep = func(time.Duration) {}
 	t := trace.Create(*out)
 	defer t.Close()
